@@ -8,6 +8,7 @@
 //                                                                        type-width boundaries), free a pattern, reuse, for_each
 //   setup  : ops executed by one thread alone before the program threads start ("-" = none)
 //   program: threads '|', ops ',':  A allocate | F<i> deallocate the i-th id kept by this thread (newest = 0)
+//            V (setup only, i.e. quiescent) move-construct a new IdAllocator from the current one and continue on it
 //            E emplace | T<k> take_released(k-th id handed out by emplace) | R finish_released(oldest taken)
 //            RAII layer (every thread has 3 Accessor objects "holders", default constructed):
 //            K<h>.<k> holder[h] = box.take(k-th id) | M<h>.<g> holder[h] = std::move(holder[g]) (h = g: self assignment)
@@ -110,6 +111,10 @@ static void run_alloc(const char* cid, unsigned long long seed, int strategy, co
       al->deallocate(id);
       pushes++;
       op.res = "f";
+    } else if (op.k == 'V') {                           // move-construct a new allocator from this one, continue on it
+      auto* nb = new IdAllocator<T>(std::move(*al));
+      delete al; al = nb;
+      op.res = "v";
     } else op.res = "?";
   };
   for (auto& op : threads[0]) exec(0, op);              // setup, alone (not under the scheduler)
